@@ -14,6 +14,7 @@ pub mod c10;
 pub mod c11;
 pub mod c12;
 pub mod c13;
+pub mod c14;
 pub mod c15;
 pub mod c18;
 pub mod c19;
@@ -45,6 +46,7 @@ pub fn registry() -> Vec<(&'static str, CheckFn)> {
         ("C11", c11::run as CheckFn),
         ("C12", c12::run as CheckFn),
         ("C13", c13::run as CheckFn),
+        ("C14", c14::run as CheckFn),
         ("C15", c15::run as CheckFn),
         ("C18", c18::run as CheckFn),
         ("C19", c19::run as CheckFn),
